@@ -56,6 +56,9 @@ var (
 type C17Edge struct {
 	From int `json:"from"` // raw name index
 	To   int `json:"to"`   // raw name index (> From), or 100 = the typed family's UA
+	// Ret, if non-zero: the upcaster returns this type (> From, so walks still terminate) instead of the target
+	// it was registered with - a splitting upcaster. The walk continues from the type actually returned.
+	Ret int `json:"ret,omitempty"`
 }
 
 type C17Ev struct {
@@ -107,7 +110,11 @@ func genC17(rt *rapid.T) core.Scenario {
 		if sc.Typed > 0 && rapid.IntRange(0, 5).Draw(rt, "toTyped") == 5 {
 			to = 100
 		}
-		sc.Edges = append(sc.Edges, C17Edge{From: from, To: to})
+		e := C17Edge{From: from, To: to}
+		if to != 100 && rapid.IntRange(0, 3).Draw(rt, "lies") == 3 {
+			e.Ret = rapid.IntRange(from+1, 7).Draw(rt, "ret")
+		}
+		sc.Edges = append(sc.Edges, e)
 	}
 	// long chains: one linear chain R0 -> R1 -> ... -> RL, far longer than anything a suite would write down
 	maxType, maxFail := 6, 10
@@ -177,6 +184,9 @@ func c17Step(edgeIdx int, e C17Edge, data []byte) ([]byte, string, error) {
 	arr = append(arr, fmt.Sprintf("%d>%d#%d", e.From, e.To, edgeIdx))
 	if e.To == 100 {
 		return mustJSON(UA{V: len(arr)}), nameUA, nil
+	}
+	if e.Ret != 0 {
+		return mustJSON(arr), c17Name(e.Ret), nil
 	}
 	return mustJSON(arr), c17Name(e.To), nil
 }
@@ -494,13 +504,14 @@ func (sc *C17Scenario) Execute(t *testing.T) *core.Outcome {
 // upcaster application index of the replay (and none), with and without error handler.
 func c17Grid(tier string, yield func(core.Scenario)) string {
 	graphs := [][]C17Edge{
-		{{0, 1}},
-		{{0, 1}, {1, 2}, {2, 3}},
-		{{0, 1}, {0, 2}, {1, 3}, {2, 3}},             // diamond, first-registered edge wins at 0
-		{{0, 2}, {0, 1}, {1, 2}, {2, 4}, {2, 3}},     // several upcasters per source
-		{{0, 1}, {1, 100}},                           // raw chain into the typed family
-		{{3, 4}, {0, 1}, {4, 5}, {1, 100}, {5, 6}},   // two independent chains
-		{{0, 6}, {1, 6}, {2, 6}, {3, 6}, {4, 6}},     // fan-in
+		{{From: 0, To: 1}},
+		{{From: 0, To: 1}, {From: 1, To: 2}, {From: 2, To: 3}},
+		{{From: 0, To: 1}, {From: 0, To: 2}, {From: 1, To: 3}, {From: 2, To: 3}},             // diamond, first-registered edge wins at 0
+		{{From: 0, To: 2}, {From: 0, To: 1}, {From: 1, To: 2}, {From: 2, To: 4}, {From: 2, To: 3}},     // several upcasters per source
+		{{From: 0, To: 1}, {From: 1, To: 100}},                           // raw chain into the typed family
+		{{From: 3, To: 4}, {From: 0, To: 1}, {From: 4, To: 5}, {From: 1, To: 100}, {From: 5, To: 6}},   // two independent chains
+		{{From: 0, To: 6}, {From: 1, To: 6}, {From: 2, To: 6}, {From: 3, To: 6}, {From: 4, To: 6}},     // fan-in
+		{{From: 0, To: 1, Ret: 3}, {From: 1, To: 2}, {From: 3, To: 4}},  // a splitting upcaster: registered 0->1, returns 3
 	}
 	n := 0
 	for _, g := range graphs {
